@@ -163,6 +163,11 @@ def step (_ : Unit) (line : String) : Unit × String :=
         let n := match ms with | m :: _ => m.length | [] => 0
         s!"ok {showArr (.s ((List.zip ms bs).map (fun (p : List Vec × Box) => repeatBoxCoord K p.1 p.2 am)))} {showNatsU (repeatIndices K n am)}"
       | _, _, _ => "bad-op"
+    | ["rpbcmol", _, a, b, mols, sel] =>
+      match parseArr a, parseBox b, parseMols mols with
+      | some (.l xs), some (.one b), some mols =>
+        showRes showArr (liftD ((removePbcSelected K xs mols (sel.toList.map (· == '1')) b).map Arr.l))
+      | _, _, _ => "bad-op"
     | ["rpbcmol", _, a, b, mols] =>
       match parseArr a, parseBox b, parseMols mols with
       | some (.l xs), some (.one b), some mols =>
